@@ -466,7 +466,11 @@ class Interp:
         self.stats['units'] += 1
         fr = Frame(body, ctx, argtags, chain, shapes)
         exits = {}
-        work = [(0, tok, ())]
+        init_tags = ()
+        if shapes and not body.is_coroutine:
+            # sync fn: argument i is local i+1
+            init_tags = tuple(sorted((i + 1, sh) for i, sh in enumerate(shapes) if sh is not None and i < body.argc))
+        work = [(0, tok, init_tags)]
         seen = set()
         merged_at = {}
         merge = self.d.merge
@@ -793,11 +797,15 @@ class Interp:
             ctx = tuple(sorted(set(ctx) | set(fr.ctx)))
         at = d.argtags(self, fr, tok, tags, t, cb)
         chain = fr.chain + ('%s@%s' % (short(cb.path), fr.where(bi)),)
-        cfr = Frame(cb, ctx, at, chain)
+        st = self.static_shapes(fr.body, t)
+        shapes = tuple((tag_of_operand(a, tags) if a['k'] != 'const' else None) or (st[i] if i < len(st) else None)
+                       for i, a in enumerate(t['args']))
+        shapes = tuple(x if x in ('T', 'F', 'none', 'some()') else None for x in shapes)
+        cfr = Frame(cb, ctx, at, chain, shapes)
         itok = d.on_enter(self, fr, tok, cfr, bi, t)
         if itok is None:
             return []
-        summ = self.analyze(cb, ctx, at, itok, chain)
+        summ = self.analyze(cb, ctx, at, itok, chain, shapes)
         outs = []
         for etag, toks in summ.items():
             for et in toks:
